@@ -731,7 +731,7 @@ impl Property for C04 {
     fn budget(&self, tier: Tier) -> (u32, usize) {
         match tier {
             Tier::Quick => (50_000, 8),
-            Tier::Thorough => (3_000_000, 16),
+            Tier::Thorough => (2_000_000, 16),
         }
     }
     fn run(&self, case: &CbCase) -> Report {
